@@ -354,6 +354,26 @@ Proof.
   - split; [intros _; left; discriminate|lia].
 Qed.
 
+(* the STATUS seen by the caller (low 8 bits of the code): in check mode the code is 0 or 1,
+   never a count that could wrap to 0 *)
+Lemma decide_check_code : forall a parse lint render,
+  check a = true ->
+  exit_code (decide a parse lint render) = 0 \/ exit_code (decide a parse lint render) = 1.
+Proof.
+  intros a parse lint render Hc. unfold decide. rewrite Hc, andb_false_r.
+  destruct (parse false) as [|[]]; cbn [exit_code]; try (right; reflexivity).
+  match goal with |- context [Nat.ltb ?x ?y] => destruct (Nat.ltb x y) end; cbn [exit_code]; [right|left]; reflexivity.
+Qed.
+
+Lemma decide_check_status : forall a parse lint render,
+  check a = true ->
+  (process_status (decide a parse lint render) <> 0 <->
+   parse false <> POk \/ (disable_linter a = false /\ (0 < lint)%nat)).
+Proof.
+  intros a parse lint render Hc. rewrite <- (decide_check_exit a parse lint render Hc).
+  unfold process_status. destruct (decide_check_code a parse lint render Hc) as [E|E]; rewrite E; cbn; lia.
+Qed.
+
 Lemma decide_check_never_renders : forall a parse lint render,
   check a = true -> rendered_of (decide a parse lint render) = None.
 Proof.
